@@ -22,19 +22,20 @@ EXTENDS Naturals, Sequences, FiniteSets
 
 \* ---------------------------------------------------------------- character classes
 \* plain    : a character without any role below (letters, blank, ';', '#', '+', ...)
-\* ws       : TAB, LF, CR                  c0   : C0 control other than TAB/LF/CR/ESC (U+0001..U+001F, not Python-blank)
+\* ws       : TAB, LF, CR                  c0   : C0 control other than TAB/LF/CR/ESC that str.strip() keeps
+\* c0ws     : C0 control that str.strip() removes (VT, FF, FS, GS, RS, US)
 \* esc      : U+001B                       lbr  : '['     digit : 0-9 (and any \d)     m : 'm' or 'A' (ends an ANSI sequence)
 \* delc1    : U+007F..U+0084, U+0086..U+009F (legal but discouraged XML characters)
 \* fffe     : U+FFFE, U+FFFF (not XML characters)
 \* astral   : U+10000.. (legal)            nonascii : other BMP non-ASCII (legal)
-Classes == {"plain", "lt", "amp", "quot", "apos", "rbr", "gt", "ws", "c0", "delc1", "esc", "lbr", "digit", "m",
+Classes == {"plain", "lt", "amp", "quot", "apos", "rbr", "gt", "ws", "c0", "c0ws", "delc1", "esc", "lbr", "digit", "m",
             "fffe", "astral", "nonascii"}
 \* symbols that only the escapers produce: the letters of an entity name, ';', '#', the digits of a character reference
 OutOnly == {"name", "semi", "hash", "refdigit"}
 \* XML 1.0 production [2] Char: #x9 | #xA | #xD | [#x20-#xD7FF] | [#xE000-#xFFFD] | [#x10000-#x10FFFF]
-NotXmlChar == {"c0", "esc", "fffe"}
+NotXmlChar == {"c0", "c0ws", "esc", "fffe"}
 \* junit._invalid_re (the classes it replaces by the text U+dddd)
-ReplacedByJunit == {"c0", "esc", "delc1", "fffe"}
+ReplacedByJunit == {"c0", "c0ws", "esc", "delc1", "fffe"}
 
 RECURSIVE Flat(_)
 Flat(ss) == IF ss = <<>> THEN <<>> ELSE Head(ss) \o Flat(Tail(ss))
@@ -45,14 +46,19 @@ Ref(n) == <<"amp">> \o [k \in 1..n |-> "name"] \o <<"semi">>          \* &amp; &
 CharRef == <<"amp", "hash", "refdigit", "refdigit", "semi">>           \* &#09; &#10; &#13;
 EscAttrSym(c) == CASE c = "amp" -> Ref(3) [] c = "lt" -> Ref(2) [] c = "gt" -> Ref(2) [] c = "quot" -> Ref(4)
                    [] c = "ws" -> CharRef [] OTHER -> <<c>>
-EscapeAttr(s) == Map(s, EscAttrSym)
+\* The reporter hands attribute values to ElementTree as they are.  (If it ever passes them through
+\* _escape_invalid_xml_chars first -- the drafted repair of DESIGN 8 #3 -- set this to TRUE: the specification
+\* follows the code.)
+AttrFiltersInvalid == FALSE
 EscTextSym(c) == CASE c = "amp" -> Ref(3) [] c = "lt" -> Ref(2) [] c = "gt" -> Ref(2) [] OTHER -> <<c>>
 EscapeText(s) == Map(s, EscTextSym)
-\* str.strip() as applied to the exception text that becomes @message
+\* str.strip() as applied to the exception text that becomes @message (it also removes blanks and non-ASCII
+\* white space, which are harmless members of "plain" / "nonascii" wherever they stand)
+Blank == {"ws", "c0ws"}
 RECURSIVE LTrim(_)
-LTrim(s) == IF s # <<>> /\ Head(s) = "ws" THEN LTrim(Tail(s)) ELSE s
+LTrim(s) == IF s # <<>> /\ Head(s) \in Blank THEN LTrim(Tail(s)) ELSE s
 RECURSIVE RTrim(_)
-RTrim(s) == IF s # <<>> /\ s[Len(s)] = "ws" THEN RTrim(SubSeq(s, 1, Len(s) - 1)) ELSE s
+RTrim(s) == IF s # <<>> /\ s[Len(s)] \in Blank THEN RTrim(SubSeq(s, 1, Len(s) - 1)) ELSE s
 Trim(s) == RTrim(LTrim(s))
 
 \* ---------------------------------------------------------------- (S) ansi_escapes.strip_escapes
@@ -80,6 +86,8 @@ ReplTermFrom(s, i) ==
 \* _escape_invalid_xml_chars: every character of _invalid_re becomes the text "U+" and decimal digits
 InvalidSym(c) == IF c \in ReplacedByJunit THEN <<"plain", "plain", "digit", "digit", "digit", "digit">> ELSE <<c>>
 EscapeCDATA(s) == IF s = <<>> THEN s ELSE Map(ReplTermFrom(s, 1), InvalidSym)
+EscAttrFiltered(c) == IF c \in ReplacedByJunit THEN InvalidSym(c) ELSE EscAttrSym(c)
+EscapeAttr(s) == IF AttrFiltersInvalid THEN Map(s, EscAttrFiltered) ELSE Map(s, EscAttrSym)
 
 \* ---------------------------------------------------------------- the pipelines per context
 Contexts == {"attr", "cdata", "text"}
@@ -115,7 +123,7 @@ WellFormed(ctx, s) == Accept(ctx, Pipeline(ctx, s))
 \* KF_C16_attr_ctrl (DESIGN 8 #3): a character that is not an XML character (C0 control, ESC, U+FFFE/U+FFFF) is
 \* written raw into an XML attribute
 Range(q) == {q[i] : i \in DOMAIN q}
-KF_C16_attr_ctrl(ctx, s) == ctx = "attr" /\ Range(s) \cap NotXmlChar # {}
+KF_C16_attr_ctrl(ctx, s) == ctx = "attr" /\ ~AttrFiltersInvalid /\ Range(s) \cap NotXmlChar # {}
 
 \* ---------------------------------------------------------------- where the reporter puts what (sources of text)
 Sources == {"feature_name", "scenario_name", "step_name", "message", "stdout", "stderr", "group"}
